@@ -580,9 +580,9 @@ protected:
               ConditionalConstraint< QuadConRhs<0> >
               { { std::move(lhs.GetAlgConBody()),
                   -lhs.constant_term() } } );
-    assert(eq.is_variable());
+    // eq can be presolved to a constant (e.g., x!=2 for a binary x)
     return AssignResult2Args(
-          NotConstraint({eq.get_representing_variable()}));
+          NotConstraint({Convert2Var(std::move(eq))}));
   }
 
   /// Convert array of Expr's to array of EExpr's
